@@ -18,6 +18,7 @@ import (
 	"fmt"
 	"hash"
 	"io"
+	"log/slog"
 	"net/http"
 	"net/http/httptest"
 	"strconv"
@@ -35,6 +36,11 @@ import (
 
 	"verif/internal/keys"
 )
+
+func init() {
+	// the library logs warnings (token invalidation etc.) through slog; keep check output clean
+	slog.SetDefault(slog.New(slog.NewTextHandler(io.Discard, nil)))
+}
 
 // State is everything a server needs from its backend (MemStore and sqlite.DB both satisfy it).
 type State interface {
